@@ -84,6 +84,22 @@ Verdict prop(Tape& t, Run& run) {
 	for (size_t i = 0; i < nTypes; i++)
 		if (pick[i])
 			rel.typeNames[i] = "Zq" + in.typeNames[i];
+	// every fourth case also carries a near-empty opaque block (0..3 payload bytes) of an unregistered type at
+	// the end and one more header string that nothing known refers to
+	const bool tiny = (c.hash % 4) == 2;
+	if (tiny) {
+		mini::addBlock(rel, "ZqTinyMarker", std::string(static_cast<size_t>((c.hash >> 4) % 4), '\x5a'));
+		if (rel.ver.stringIndices())
+			rel.strings.push_back("ZqOnlyOpaqueBlocksUseThis");
+		run.cls("with-tiny-opaque-block");
+	}
+	// and every fourth case has ONLY that one (no relabelled type): the file's single unknown block is tiny
+	if (tiny && (c.hash % 8) == 2)
+		for (size_t i = 0; i < nTypes; i++)
+			if (pick[i]) {
+				rel.typeNames[i] = in.typeNames[i];
+				pick[i] = false;
+			}
 	const std::string relBytes = mini::write(rel);
 
 	const std::string mode = useDefault ? "default" : "raw";
